@@ -20,8 +20,9 @@ import (
 
 // Tape mirrors simrt.Tape.
 type Tape struct {
-	Program  []uint64 `json:"program"`
-	Schedule []uint64 `json:"schedule"`
+	Program      []uint64 `json:"program"`
+	Schedule     []uint64 `json:"schedule"`
+	ProgramSpans [][2]int `json:"program_spans,omitempty"`
 }
 
 // Violation mirrors the worker's.
